@@ -564,7 +564,35 @@ fn destructure_top_level_ands(lvalue: EvaluatedLvalue) -> Vec<EvaluatedLvalue> {
     }
 }
 
+#[cfg(betaveros_noulith_verif)]
+thread_local! {
+    static VERIF_FUEL: std::cell::Cell<u64> = std::cell::Cell::new(u64::MAX);
+}
+/// verification hook: bound the number of `evaluate` steps on this thread; when the budget is
+/// used up `evaluate` raises an ordinary error instead of running on.
+#[cfg(betaveros_noulith_verif)]
+pub fn verif_set_fuel(n: u64) {
+    VERIF_FUEL.with(|f| f.set(n));
+}
+#[cfg(betaveros_noulith_verif)]
+pub fn verif_get_fuel() -> u64 {
+    VERIF_FUEL.with(|f| f.get())
+}
+
 pub fn evaluate(env: &Rc<RefCell<Env>>, expr: &LocExpr) -> NRes<Obj> {
+    #[cfg(betaveros_noulith_verif)]
+    {
+        let left = VERIF_FUEL.with(|f| {
+            let v = f.get();
+            if v > 0 && v != u64::MAX {
+                f.set(v - 1);
+            }
+            v
+        });
+        if left == 0 {
+            return Err(NErr::throw("verif: fuel exhausted".to_string()));
+        }
+    }
     match &expr.expr {
         Expr::Null => Ok(Obj::Null),
         Expr::IntLit64(n) => Ok(Obj::from(NInt::Small(*n))),
